@@ -131,6 +131,8 @@ struct Ctx<'a> {
     out: CaseOut,
     seen: HashSet<u64>,
     for_c05: bool,
+    /// restrict the first operation (work splitting)
+    first: Option<usize>,
 }
 
 fn hash_snap(s: &Snap) -> u64 {
@@ -162,9 +164,16 @@ fn explore(ctx: &mut Ctx, tree: &AffTree<2>, s: &Snap, in_dim: usize, d: usize, 
     if hist.len() == ctx.maxlen {
         return;
     }
-    for op in ops_for(in_dim, d, ctx.tier) {
+    for (oi, op) in ops_for(in_dim, d, ctx.tier).into_iter().enumerate() {
         if !op.fits(d) || !op.fits_in(in_dim) {
             continue;
+        }
+        if hist.is_empty() {
+            if let Some(f) = ctx.first {
+                if f != oi {
+                    continue;
+                }
+            }
         }
         let nd = op.out_dim(d);
         let nin = op.in_dim_after(in_dim);
@@ -234,9 +243,9 @@ fn explore(ctx: &mut Ctx, tree: &AffTree<2>, s: &Snap, in_dim: usize, d: usize, 
     }
 }
 
-fn run_init(init: &Init, tier: Tier, for_c05: bool) -> CaseOut {
+fn run_init(init: &Init, first: usize, tier: Tier, for_c05: bool) -> CaseOut {
     let maxlen = match tier { Tier::Quick => 3, Tier::Thorough => 4 };
-    let mut ctx = Ctx { init, tier, maxlen, max_nodes: 200, out: CaseOut::default(), seen: HashSet::new(), for_c05 };
+    let mut ctx = Ctx { init, tier, maxlen, max_nodes: 200, out: CaseOut::default(), seen: HashSet::new(), for_c05, first: Some(first) };
     let t = match catch(|| init.build()) {
         Ok(t) => t,
         Err(m) => {
@@ -246,8 +255,10 @@ fn run_init(init: &Init, tier: Tier, for_c05: bool) -> CaseOut {
     };
     let s = snap(&t);
     ctx.seen.insert(hash_snap(&s));
-    ctx.out.add("states", 1);
-    if !for_c05 {
+    if first == 0 {
+        ctx.out.add("states", 1);
+    }
+    if !for_c05 && first == 0 {
         if let Err((tag, msg)) = well_formed(&s, Some(init.out_dim())) {
             ctx.out.violate(Violation::new(format!("constructor result: {msg}"), init.to_json()).tag("kind", "malformed").tag("inv", tag).tag("op", "constructor"));
         }
@@ -262,7 +273,13 @@ fn run_init(init: &Init, tier: Tier, for_c05: bool) -> CaseOut {
 fn run_all(tier: Tier, for_c05: bool) -> CaseOut {
     let is = inits(tier);
     let total = Mutex::new(CaseOut::default());
-    let outs = par_cases(&is, |_, init| run_init(init, tier, for_c05));
+    let mut tasks: Vec<(Init, usize)> = vec![];
+    for init in &is {
+        for k in 0..ops_for(init.in_dim(), init.out_dim(), tier).len() {
+            tasks.push((init.clone(), k));
+        }
+    }
+    let outs = par_cases(&tasks, |_, (init, k)| run_init(init, *k, tier, for_c05));
     let mut t = total.into_inner().unwrap();
     t.merge(outs);
     t
@@ -275,7 +292,7 @@ pub fn run(tier: Tier) -> Report {
     let tr = rep.coverage.get("transitions").and_then(|v| v.as_u64()).unwrap_or(0);
     rep.set("traces_validated_against_impl", tr);
     rep.set("bound", format!("every history of <= {} operations from {} constructor results; alphabet per state: apply_func (4 maps), compose pruned/unpruned (11-13 operands incl. partial user trees), infeasible_elimination, reduce, neg, tree +,-,* (total and partial operand), affine + and affine-on-the-left -, remove_axes; trees capped at 200 nodes", if tier == Tier::Quick { 3 } else { 4 }, inits(tier).len()));
-    rep.assume("arguments are dimension-compatible with the tracked input/output dimensions; histories are not merged (no state abstraction), 'states' counts distinct arena snapshots");
+    rep.assume("arguments are dimension-compatible with the tracked input/output dimensions; histories are not merged (no state abstraction); 'states' counts distinct arena snapshots per (constructor, first operation) task");
     rep
 }
 
